@@ -12,6 +12,8 @@
     Lemmas/AstPath/ChildrenPaths.lean  Nodes.children on the cache of full_pathfy
     Lemmas/AstPath/Parent.lean      Nodes.parent / Nodes.siblings on the cache of full_pathfy
     Lemmas/AstPath/Ancestor.lean    Nodes.ancestor on the cache of full_pathfy (index-group stripping, tag search)
+    Lemmas/AstPath/GroupBy.lean     EntryCache.group_by for any depth = the subtree enumeration cut at that depth
+    Lemmas/AstPath/Expand.lean      Nodes.values; Nodes.expand under PrefixSafe / RelativefySafe
 -/
 import Tranp.Lemmas.AstPath.Abstract
 import Tranp.Lemmas.AstPath.StrCodec
@@ -24,3 +26,5 @@ import Tranp.Lemmas.AstPath.CacheChildren
 import Tranp.Lemmas.AstPath.ChildrenPaths
 import Tranp.Lemmas.AstPath.Parent
 import Tranp.Lemmas.AstPath.Ancestor
+import Tranp.Lemmas.AstPath.GroupBy
+import Tranp.Lemmas.AstPath.Expand
